@@ -172,7 +172,10 @@ func Gen(seed uint64, tier string) any {
 		} else if sc.Transport == "tcp" && core.Chance(r, 55) {
 			nf := 1 + r.IntN(2)
 			for i := 0; i < nf; i++ {
-				op := common.FrameOp{Dir: core.Pick(r, "c2s", "s2c"), Env: r.IntN(n), Kind: core.Pick(r, "flip", "flip", "unsign", "wrongkey", "nokey", "parentkey", "delay", "dup")}
+				op := common.FrameOp{Dir: core.Pick(r, "c2s", "s2c"), Env: r.IntN(n), Kind: core.Pick(r, "flip", "flip", "unsign", "wrongkey", "nokey", "parentkey", "delay", "dup", "reflect")}
+				if op.Kind == "reflect" {
+					op.Dir = "s2c"
+				}
 				if op.Kind == "flip" {
 					op.Region, op.Frac, op.Bit = core.Pick(r, "header", "flags", "flags", "question", "records", "tsig", "mac", "mac"), r.IntN(1000), r.IntN(8)
 				}
